@@ -609,6 +609,9 @@ class Shape:
                 return base.items[k]
             return base.elem
         if isinstance(base, DictT):
+            k = self.ev(e.slice, env)
+            if isinstance(base.key, Ix) and isinstance(k, Ix) and base.key.space is not k.space and not is_unk(k.space):
+                self.report('space', e, 'a dictionary keyed by %s is looked up with a key of kind %s' % (base.key, k))
             return base.val
         if isinstance(base, Rec):
             k = const_value(e.slice)
